@@ -5,6 +5,6 @@ import "time"
 func init() {
 	registry = append(registry, property{id: "C09", parts: []part{
 		{name: "registers", pkg: "./c09", run: "^TestRegisters$",
-			shards: [2]int{8, 16}, checks: [2]int{4000, 60000}, timeout: [2]time.Duration{9 * min, 25 * min}},
+			shards: [2]int{8, 16}, checks: [2]int{4000, 60000}, timeout: [2]time.Duration{9 * min, 50 * min}},
 	}})
 }
